@@ -247,6 +247,12 @@ def opUpdates (w : World) : EOp → List Update
   | .del _ ts => req ts w.mem.clock (-1)
   | _ => []
 
+/-- a delete reaches the persist layer only for a relation the engine knows (metadata entry); otherwise it is
+    acknowledged `Ok(0)` without any step -/
+def delKnown (w : World) : EOp → Bool
+  | .del r _ => decide (r ∈ w.mem.known)
+  | _ => true
+
 /-- operations of the fragment: insert / delete on shard `s` -/
 def onShard (s : Name) : EOp → Bool
   | .ins r _ => decide (r = s)
@@ -267,13 +273,14 @@ theorem runOp_ins_eq (b : Nat) (w : World) (r : Name) (ts : List Nat) (hts : ts 
   simp only [prepared, req] at hf
   simp [runOp, hts, prepared, req, hf]
 
-theorem runOp_del_eq (b : Nat) (w : World) (r : Name) (ts : List Nat) (hts : ts ≠ []) :
+theorem runOp_del_eq (b : Nat) (w : World) (r : Name) (ts : List Nat) (hts : ts ≠ []) (hk : r ∈ w.mem.known) :
     runOp b w (.del r ts) = append b (ensureShard (prepared w) r) r (req ts w.mem.clock (-1)) := by
-  simp [runOp, hts, prepared, req]
+  simp [runOp, hts, prepared, req, hk]
 
 /-- **one insert / delete from a running state**: it is acknowledged, the state is again running with the request's
     updates added, and every prefix of its FS steps leaves an image that is old, new, or the doubled one. -/
-theorem op_ok {s : Name} (b : Nat) {w : World} {C : List Update} (o : EOp) (ho : onShard s o = true) (hrun : Run s w C) :
+theorem op_ok {s : Name} (b : Nat) {w : World} {C : List Update} (o : EOp) (ho : onShard s o = true)
+    (hk : delKnown w o = true) (hrun : Run s w C) :
     (runOp b w o).failed = false ∧ Run s (runOp b w o) (C ++ opUpdates w o) ∧
     AllPre w.disk ((runOp b w o).trace.map (·.2)) (PreOk s C (C ++ opUpdates w o)) := by
   have hprep : Run s (prepared w) C := hrun.congr rfl rfl rfl (by simp [prepared, hrun.notFailed])
@@ -309,7 +316,7 @@ theorem op_ok {s : Name} (b : Nat) {w : World} {C : List Update} (o : EOp) (ho :
       exact ⟨trivial, hbase, allPre_nil hold⟩
     · have hnew : req ts w.mem.clock (-1) ≠ [] := by simpa [req] using hts
       obtain ⟨hr, hp⟩ := ensure_append_ok (s := r) b (w := prepared w) (req ts w.mem.clock (-1)) hnew hprep rfl
-      rw [runOp_del_eq b w r ts hts]
+      rw [runOp_del_eq b w r ts hts (by simpa [delKnown] using hk)]
       exact ⟨hr.notFailed, hr, hp⟩
   | dropRel r => simp [onShard] at ho
   | flushAll k ord => simp [onShard] at ho
